@@ -83,9 +83,16 @@ func (f *file) register(c *Counter) {
 		}
 		if f.counters.CompareAndSwap(head, c) {
 			debugPrintf("registered %s %p\n", c.Name(), f.counters.Load())
+			c.registered.Store(true)
 			return
 		}
 		debugPrintf("register %s cas2 failed %p %p\n", c.Name(), f.counters.Load(), head)
+	}
+	// c.next is set, but the goroutine that set it may not have linked c
+	// into f.counters yet. Until it has, invalidateCounters cannot reach c,
+	// and a pointer obtained now could outlive its mapping: wait for it.
+	for !c.registered.Load() {
+		runtime.Gosched()
 	}
 }
 
